@@ -12,7 +12,8 @@ NH=COMMON_HEADER, i.e. a secured packet is not re-emitted unsecured); DPL ring b
 when the SN is a member and before any insertion, every accepted SN recorded in ring and set, eviction only when full
 and of the popped SN, no other mutation); CBF buffering discipline (cbf: a timer is armed only for a (source, SN) not
 yet buffered, a second reception removes and cancels the buffered copy, the expiry callback sends only on paths that
-found the copy still buffered; cbf-overhear: duplicates reach that cancel branch, looked up under the buffer's key).
+found the copy still buffered; cbf-overhear: duplicates reach that cancel branch, looked up under the buffer's key, and no
+except clause of a receive handler is shadowed by an earlier clause that catches a base class of it).
 Does not decide: termination of floods over topologies, timer expiry points, SN wrap-around, the DPL window length
 (value level).
 """
@@ -48,6 +49,33 @@ def run(ctx):
     cs = CallSummaries(P, ctx.flows)
     handlers = G.receive_handlers(ctx)
     ctx.extra["handlers"] = [h.fi.name for h in handlers]
+    # the except clauses of a receive handler are all reachable: no clause names a class that an EARLIER clause of the same try
+    # already catches.  The duplicate-packet clause is where an overheard copy cancels the buffered one; re-parenting
+    # DuplicatedPacketException under a class caught earlier silently turns that clause dead.
+    from ..summaries import ExcAlgebra
+    alg = ExcAlgebra(P)
+    n_try = 0
+    for h in handlers:
+        for t_ in [x for x in ast.walk(h.fi.node) if isinstance(x, ast.Try)]:
+            n_try += 1
+            seen, dead = [], []
+            for hd in t_.handlers:
+                elts = (hd.type.elts if isinstance(hd.type, ast.Tuple) else [hd.type]) if hd.type is not None else []
+                ids = [alg.ident(h.fi, e_) for e_ in elts]
+                for i_ in ids:
+                    if i_ is None:
+                        continue
+                    for prev in seen:
+                        if alg.is_sub(i_, prev):
+                            dead.append((i_, prev, hd.lineno))
+                seen += [i_ for i_ in ids if i_ is not None]
+            ctx.ob("C06.cbf-overhear", h.fi.short(), f"except-clauses-reachable@{len([x for x in ast.walk(h.fi.node) if isinstance(x, ast.Try) and x.lineno < t_.lineno])}", not dead,
+                   "every except clause of the handler can be reached" if not dead else
+                   f"`except {dead[0][0].split('.')[-1]}` (line {dead[0][2]}) is dead: {dead[0][0].split('.')[-1]} is a {dead[0][1].split('.')[-1]}, which an earlier clause "
+                   "catches - the duplicate / DAD handling written there never runs (an overheard duplicate no longer cancels the buffered copy)",
+                   f"{h.fi.module.rel}:{t_.lineno}")
+    if n_try < 6:
+        raise AnalysisError(f"C06: only {n_try} try statements in the receive handlers (confirmed: 8)")
     n_fwd = 0
     for h in handlers:
         sinks = G.sinks_of(ctx, h)
